@@ -33,7 +33,7 @@ pub mod typechecker {
 //@ type sylt-compiler/src/typechecker.rs type TypeResult
 //@ type sylt-compiler/src/typechecker.rs type RetNValue
 //@ type sylt-compiler/src/typechecker.rs struct TypeNode
-//@ type sylt-compiler/src/typechecker.rs enum Constraint keep=- eq=none
+//@ type sylt-compiler/src/typechecker.rs enum Constraint keep=Eq,PartialOrd,Ord eq=keep
 //@ type sylt-compiler/src/typechecker.rs struct TypeVariable
 //@ type sylt-compiler/src/typechecker.rs struct TypeChecker
 //@ type sylt-compiler/src/typechecker.rs struct TypeCtx keep=Copy clone=keep
@@ -466,6 +466,16 @@ fn opaque_errs(span: Span) -> (r: Vec<Error>) ensures r.len() == 1, r[0].span() 
 macro_rules! err_type_error {
     ($self:expr, $span:expr, $($rest:tt)*) => { Err(opaque_errs($span)) };
 }
+
+broadcast use vstd::std_specs::btree::group_btree_axioms;
+
+/// assumption A-derive-ord-constraint: `derive(PartialEq, Eq, PartialOrd, Ord)` on `Constraint`
+/// is a lawful total order, which is what the BTreeMap specification of vstd asks of a key type
+#[verifier::external_body]
+proof fn axiom_constraint_key_order() ensures vstd::std_specs::btree::key_obeys_cmp_spec::<Constraint>() {}
+
+/// deferred constraints (key set) of the class of `i`
+spec fn cons_of(ts: Seq<TypeNode>, i: int) -> Set<Constraint> { ts[rep0(ts, i)].constraints@.dom() }
 
 impl TypeChecker {
     /// representation invariant of the type graph
@@ -935,6 +945,209 @@ impl TypeChecker {
                 proof { lemma_div_intro(m, a_id, b_id); }
 //@   endghost
 //@ end
+
+//@ fn sylt-compiler/src/typechecker.rs union
+//@   in TypeChecker
+//@   props C02 C07
+//@   rewrite rule:R-tmp
+//@-         for (con, span) in self.types[b].constraints.clone().iter() {
+//@+         let hoisted_tmp = self.types[b].constraints.clone(); for (con, span) in hoisted_tmp.iter() {
+//@   why Verus does not accept a temporary in the iterator expression of a for loop; hoisting the clone into a let evaluates the same expression once, before the loop, exactly as Rust does
+//@   endrewrite
+//@   spec
+        requires
+            old(self).inv(), //# C02 union.pre.inv
+            old(self).valid(a), old(self).valid(b), //# C07 union.pre.ids_in_range
+            old(self).types@[rep0(old(self).types@, a.0 as int)].size + old(self).types@[rep0(old(self).types@, b.0 as int)].size <= usize::MAX, //# C07 union.pre.size_no_overflow
+        ensures
+            final(self).inv(), //# C02 union.keeps_invariant
+            final(self).types.len() == old(self).types.len(),
+            forall|i: int| 0 <= i < old(self).types.len() ==> (#[trigger] final(self).types@[i]).ty == old(self).types@[i].ty, //# C02 union.types_untouched
+            exists|w: int| #[trigger] merged_into(old(self).types@, final(self).types@, rep0(old(self).types@, a.0 as int), rep0(old(self).types@, b.0 as int), w), //# C02,C03 union.partition_merges_exactly_two_classes
+            forall|c: Constraint| #[trigger] cons_of(final(self).types@, a.0 as int).contains(c) <==>
+                cons_of(old(self).types@, a.0 as int).contains(c) || cons_of(old(self).types@, b.0 as int).contains(c), //# C02,C03 union.merged_class_keeps_all_constraints
+            forall|i: int| 0 <= i < old(self).types.len() && rep0(old(self).types@, i) != rep0(old(self).types@, a.0 as int)
+                && rep0(old(self).types@, i) != rep0(old(self).types@, b.0 as int)
+                ==> #[trigger] cons_of(final(self).types@, i) == cons_of(old(self).types@, i), //# C02,C03 union.other_classes_keep_constraints
+            final(self).variables == old(self).variables,
+//@   endspec
+//@   ghost entry
+        let ghost ts0 = self.types@;
+        let ghost a0 = a; let ghost b0 = b;
+        proof { axiom_constraint_key_order(); lemma_same_graph_refl(ts0); lemma_rep0_props(ts0, a0.0 as int); lemma_rep0_props(ts0, b0.0 as int); }
+//@   endghost
+//@   ghost before
+//@|         if a == b {
+        let ghost ts2 = self.types@;
+        let ghost ra = a; let ghost rb = b;
+        proof {
+            lemma_union_roots(ts0, ts2, a0.0 as int, b0.0 as int, a, b);
+            if a == b { lemma_union_noop(ts0, ts2, a0.0 as int, b0.0 as int); }
+        }
+//@   endghost
+//@   ghost before
+//@|         let hoisted_tmp = self.types[b].constraints.clone(); for (con, span) in hoisted_tmp.iter() {
+        let ghost ts3 = self.types@;
+//@   endghost
+//@   loop 1 binder it
+            invariant
+                vstd::std_specs::btree::key_obeys_cmp_spec::<Constraint>(),
+                self.types@.len() == ts3.len(), (a as int) < ts3.len(), (b as int) < ts3.len(), a != b,
+                hoisted_tmp@ == ts3[b as int].constraints@,
+                forall|i: int| 0 <= i < ts3.len() ==> (#[trigger] self.types@[i]).parent == ts3[i].parent && self.types@[i].ty == ts3[i].ty && self.types@[i].size == ts3[i].size,
+                forall|i: int| 0 <= i < ts3.len() && i != a as int ==> (#[trigger] self.types@[i]).constraints == ts3[i].constraints,
+                forall|c: Constraint| #[trigger] self.types@[a as int].constraints@.dom().contains(c) <==> ts3[a as int].constraints@.dom().contains(c)
+                    || exists|j: int| 0 <= j < it.index@ && *(#[trigger] it.seq()[j]).0 == c, //# C02,C03 union.loop.constraints_accumulate
+                self.variables == old(self).variables,
+//@   endloop
+//@   ghost after-loop 1
+        proof {
+            lemma_union_final(ts0, ts2, ts3, self.types@, a0.0 as int, b0.0 as int, ra, rb, a, b);
+        }
+//@   endghost
+//@ end
+}
+
+/// same parent links => same forest and same representatives
+proof fn lemma_parents_same(a: Seq<TypeNode>, b: Seq<TypeNode>)
+    requires wf_forest(a), a.len() == b.len(), forall|i: int| 0 <= i < a.len() ==> (#[trigger] b[i]).parent == a[i].parent,
+    ensures wf_forest(b), forall|i: int| 0 <= i < a.len() ==> #[trigger] rep0(b, i) == rep0(a, i),
+{
+    let h = the_h(a);
+    assert(hok(b, h));
+    assert forall|i: int| 0 <= i < a.len() implies #[trigger] rep0(b, i) == rep0(a, i) by {
+        lemma_rep_indep(b, the_h(b), h, i);
+        lemma_parents_same_rep(a, b, h, i);
+    }
+}
+proof fn lemma_parents_same_rep(a: Seq<TypeNode>, b: Seq<TypeNode>, h: Seq<nat>, i: int)
+    requires hok(a, h), hok(b, h), a.len() == b.len(), forall|j: int| 0 <= j < a.len() ==> (#[trigger] b[j]).parent == a[j].parent, 0 <= i < a.len(),
+    ensures rep(b, h, i) == rep(a, h, i)
+    decreases h[i]
+{
+    match a[i].parent {
+        Some(p) => { lemma_parents_same_rep(a, b, h, p.0 as int); }
+        None => {}
+    }
+}
+
+/// after the two `find`s of `union`: the roots are the old representatives
+proof fn lemma_union_roots(ts0: Seq<TypeNode>, ts2: Seq<TypeNode>, a0: int, b0: int, a: usize, b: usize)
+    requires
+        wf_forest(ts0), wf_forest(ts2), same_graph(ts0, ts2), 0 <= a0 < ts0.len(), 0 <= b0 < ts0.len(),
+        a as int == rep0(ts0, a0), b as int == rep0(ts2, b0) || b as int == rep0(ts0, b0),
+    ensures
+        a as int == rep0(ts0, a0), b as int == rep0(ts0, b0), (a as int) < ts0.len(), (b as int) < ts0.len(),
+        ts2[a as int].parent is None, ts2[b as int].parent is None,
+        ts0[a as int].parent is None, ts0[b as int].parent is None,
+        ts2[a as int].size == ts0[a as int].size, ts2[b as int].size == ts0[b as int].size,
+{
+    assert(rep0(ts2, b0) == rep0(ts0, b0));
+    lemma_rep0_props(ts0, a0); lemma_rep0_props(ts0, b0);
+    lemma_rep0_props(ts0, a as int); lemma_rep0_props(ts0, b as int);
+    lemma_rep0_props(ts2, a as int); lemma_rep0_props(ts2, b as int);
+    assert(rep0(ts2, a as int) == rep0(ts0, a as int));
+    assert(rep0(ts2, b as int) == rep0(ts0, b as int));
+    assert(ts2[a as int].size == ts0[a as int].size);
+    assert(ts2[b as int].size == ts0[b as int].size);
+}
+/// both ids already in one class: nothing changes
+proof fn lemma_union_noop(ts0: Seq<TypeNode>, ts2: Seq<TypeNode>, a0: int, b0: int)
+    requires
+        wf_forest(ts0), ids_closed(ts0), wf_forest(ts2), same_graph(ts0, ts2), 0 <= a0 < ts0.len(), 0 <= b0 < ts0.len(),
+        rep0(ts0, a0) == rep0(ts0, b0),
+    ensures
+        ids_closed(ts2),
+        merged_into(ts0, ts2, rep0(ts0, a0), rep0(ts0, b0), rep0(ts0, a0)),
+        forall|i: int| 0 <= i < ts0.len() ==> #[trigger] cons_of(ts2, i) == cons_of(ts0, i),
+        forall|i: int| 0 <= i < ts0.len() ==> (#[trigger] ts2[i]).ty == ts0[i].ty,
+{
+    lemma_same_graph(ts0, ts2);
+    assert forall|i: int| 0 <= i < ts0.len() implies #[trigger] cons_of(ts2, i) == cons_of(ts0, i) by {
+        lemma_rep0_props(ts0, i);
+        assert(rep0(ts2, i) == rep0(ts0, i));
+        assert(ts2[rep0(ts0, i)].constraints == ts0[rep0(ts0, i)].constraints);
+    }
+    assert forall|i: int| 0 <= i < ts0.len() implies #[trigger] rep0(ts2, i) == (if rep0(ts0, i) == rep0(ts0, a0) || rep0(ts0, i) == rep0(ts0, b0) { rep0(ts0, a0) } else { rep0(ts0, i) }) by {
+        assert(rep0(ts2, i) == rep0(ts0, i));
+    }
+}
+/// linking root l (loser) under root w (winner)
+proof fn lemma_union_link(ts2: Seq<TypeNode>, ts3: Seq<TypeNode>, w: usize, l: usize)
+    requires
+        wf_forest(ts2), (w as int) < ts2.len(), (l as int) < ts2.len(), w != l,
+        ts2[w as int].parent is None, ts2[l as int].parent is None,
+        ts3.len() == ts2.len(), ts3[l as int].parent == Some(TyID(w)),
+        forall|j: int| 0 <= j < ts2.len() && j != l as int ==> (#[trigger] ts3[j]).parent == ts2[j].parent,
+    ensures
+        wf_forest(ts3),
+        forall|i: int| 0 <= i < ts2.len() ==> #[trigger] rep0(ts3, i) == (if rep0(ts2, i) == l as int { w as int } else { rep0(ts2, i) }),
+{
+    let h = the_h(ts2);
+    let h3 = shift_h(ts2, h, w as int, l as int);
+    lemma_link(ts2, ts3, h, w, l, 0);
+    assert(hok(ts3, h3));
+    assert forall|i: int| 0 <= i < ts2.len() implies #[trigger] rep0(ts3, i) == (if rep0(ts2, i) == l as int { w as int } else { rep0(ts2, i) }) by {
+        lemma_link(ts2, ts3, h, w, l, i);
+        lemma_rep_indep(ts3, the_h(ts3), h3, i);
+    }
+}
+/// puts the steps of `union` together
+proof fn lemma_union_final(ts0: Seq<TypeNode>, ts2: Seq<TypeNode>, ts3: Seq<TypeNode>, ts4: Seq<TypeNode>,
+                           a0: int, b0: int, ra: usize, rb: usize, w: usize, l: usize)
+    requires
+        wf_forest(ts0), ids_closed(ts0), wf_forest(ts2), same_graph(ts0, ts2), 0 <= a0 < ts0.len(), 0 <= b0 < ts0.len(),
+        ra as int == rep0(ts0, a0), rb as int == rep0(ts0, b0), ra != rb,
+        (w == ra && l == rb) || (w == rb && l == ra),
+        ts2[ra as int].parent is None, ts2[rb as int].parent is None,
+        // step 1 (ts2 -> ts3): link and size update
+        ts3.len() == ts2.len(), ts3[l as int].parent == Some(TyID(w)),
+        forall|j: int| 0 <= j < ts2.len() && j != l as int ==> (#[trigger] ts3[j]).parent == ts2[j].parent,
+        forall|j: int| 0 <= j < ts2.len() ==> (#[trigger] ts3[j]).ty == ts2[j].ty && ts3[j].constraints == ts2[j].constraints,
+        // step 2 (ts3 -> ts4): constraints of the loser copied into the winner
+        ts4.len() == ts3.len(),
+        forall|i: int| 0 <= i < ts3.len() ==> (#[trigger] ts4[i]).parent == ts3[i].parent && ts4[i].ty == ts3[i].ty,
+        forall|i: int| 0 <= i < ts3.len() && i != w as int ==> (#[trigger] ts4[i]).constraints == ts3[i].constraints,
+        forall|c: Constraint| #[trigger] ts4[w as int].constraints@.dom().contains(c) <==>
+            ts3[w as int].constraints@.dom().contains(c) || ts3[l as int].constraints@.dom().contains(c),
+    ensures
+        wf_forest(ts4), ids_closed(ts4),
+        forall|i: int| 0 <= i < ts0.len() ==> (#[trigger] ts4[i]).ty == ts0[i].ty,
+        merged_into(ts0, ts4, rep0(ts0, a0), rep0(ts0, b0), w as int),
+        forall|c: Constraint| #[trigger] cons_of(ts4, a0).contains(c) <==> cons_of(ts0, a0).contains(c) || cons_of(ts0, b0).contains(c),
+        forall|i: int| 0 <= i < ts0.len() && rep0(ts0, i) != rep0(ts0, a0) && rep0(ts0, i) != rep0(ts0, b0)
+            ==> #[trigger] cons_of(ts4, i) == cons_of(ts0, i),
+{
+    lemma_rep0_props(ts0, a0); lemma_rep0_props(ts0, b0);
+    lemma_union_link(ts2, ts3, w, l);
+    lemma_parents_same(ts3, ts4);
+    assert forall|i: int| 0 <= i < ts0.len() implies (#[trigger] ts4[i]).ty == ts0[i].ty by {
+        assert(ts3[i].ty == ts2[i].ty);
+    }
+    assert forall|i: int| 0 <= i < ts4.len() implies ids_in_range((#[trigger] ts4[i]).ty, ts4.len() as int) by {
+        assert(ts4[i].ty == ts0[i].ty);
+        assert(ids_in_range(ts0[i].ty, ts0.len() as int));
+    }
+    assert forall|i: int| 0 <= i < ts0.len() implies
+        #[trigger] rep0(ts4, i) == (if rep0(ts0, i) == rep0(ts0, a0) || rep0(ts0, i) == rep0(ts0, b0) { w as int } else { rep0(ts0, i) }) by {
+        assert(rep0(ts4, i) == rep0(ts3, i));
+        assert(rep0(ts2, i) == rep0(ts0, i));
+    }
+    // constraints
+    assert(rep0(ts4, a0) == w as int);
+    assert(ts3[w as int].constraints == ts2[w as int].constraints);
+    assert(ts3[l as int].constraints == ts2[l as int].constraints);
+    assert(ts2[w as int].constraints == ts0[w as int].constraints);
+    assert(ts2[l as int].constraints == ts0[l as int].constraints);
+    assert forall|i: int| 0 <= i < ts0.len() && rep0(ts0, i) != rep0(ts0, a0) && rep0(ts0, i) != rep0(ts0, b0)
+        implies #[trigger] cons_of(ts4, i) == cons_of(ts0, i) by {
+        lemma_rep0_props(ts0, i);
+        let r = rep0(ts0, i);
+        assert(rep0(ts4, i) == r);
+        assert(ts4[r].constraints == ts3[r].constraints);
+        assert(ts3[r].constraints == ts2[r].constraints);
+        assert(ts2[r].constraints == ts0[r].constraints);
+    }
 }
 
 proof fn lemma_push(ts: Seq<TypeNode>, ts2: Seq<TypeNode>)
